@@ -796,6 +796,13 @@ def corpus(prefix: str = "c") -> List[Dict[str, Any]]:
       "derivative as root")
     g([fn("d", [A], kw={"dispatch": "K"}, registers=[{"via": "register", "keys": ["self"], "target": {"ds": "d"}}])],
       "cyclic object graph: a dataset registered as its own overload (never selected)")
+    g([fn("b", [A], kw={"dispatch": {"opt": "K", "default": "raw"}}),
+       {"name": "w", "kind": "deriv", "form": "explicit", "base": "b", "how": "with_options", "opts": {"K": "raw"}},
+       fn("o", [("x", {"ds": "w"}), B], overload_of={"base": "b", "keys": ["scaled"]}),
+       fn("d", [("y", {"ds": "b"})])],
+      "cycle through the overload table: an overload that depends on a with_options derivative of its own base "
+      "(the derivative shares the base's Overloaded object)",
+      optdicts=[{"A": 1, "K": "scaled", "B": 2}, {"A": 1}, {"A": 2, "K": "raw"}, {"A": 3, "K": "scaled"}])
     g([fn("o1", [A]), fn("o2", [B], kw={"dispatch": "M"},
                          registers=[{"via": "register", "keys": ["two"], "target": {"ds": "o1"}}]),
        fn("d", [("c", {"opt": "C", "default": 0})], kw={"dispatch": "K"},
